@@ -135,27 +135,36 @@ def cmd_confirm(sid):
 
 
 def cmd_detect(sid, tier="quick", pid_override=None):
+    """apply the seed in a private clone of /repo and run the registered check against it
+    (mount namespace: tools/inrepo.sh); the real /repo and the real evidence are never touched."""
     d, meta = load(sid)
     pid = pid_override or meta["property"]
     patch = os.path.join(d, "patch.diff")
-    rc, out = sh(["git", "-C", "/repo", "apply", "--check", patch])
-    if rc != 0:
-        print(sid, "patch does not apply to /repo working tree:", out[-300:])
-        return
-    sh(["git", "-C", "/repo", "apply", patch])
-    t0 = time.time()
+    clone = "/tmp/seeddetect-%s-%s-%d" % (sid, pid, os.getpid())
+    sh(["rm", "-rf", clone, clone + ".evidence", clone + ".replays"])
+    sh(["git", "clone", "-q", "/repo", clone])
     try:
-        rc, out = sh(["python3", os.path.join(ROOT, "verif.py"), "check", pid, "--tier", tier], cwd=ROOT, timeout=7200)
+        rc, out = sh(["git", "-C", clone, "apply", patch])
+        if rc != 0:
+            print(sid, "patch does not apply to /repo HEAD:", out[-300:])
+            return
+        t0 = time.time()
+        rc, out = sh([os.path.join(ROOT, "tools", "inrepo.sh"), clone, "python3", "verif.py", "check", pid, "--tier", tier], cwd=ROOT, timeout=7200)
+        viol = [l for l in out.splitlines() if l.startswith("VIOLATION")]
+        first_replay = None
+        m = re.search(r"replay=(\S+)", viol[0]) if viol else None
+        if m:
+            rp = os.path.join(clone + ".replays", os.path.basename(m.group(1)))
+            if os.path.exists(rp):
+                first_replay = open(rp).read()[:1500]
+        meta.setdefault("detect", {})[pid + ":" + tier] = {
+            "exit": rc, "violations": len(viol), "first": viol[:2], "wall_s": round(time.time() - t0, 1),
+            "detected": rc != 0 and bool(viol), "no_failing_input_only": bool(viol) and all("no-failing-input-found" in v for v in viol),
+            "first_replay_excerpt": first_replay, "repo_head": sh(["git", "-C", "/repo", "rev-parse", "--short", "HEAD"])[1].strip()}
+        save(d, meta)
+        print(sid, pid, tier, "exit", rc, "violations", len(viol), viol[:1])
     finally:
-        rcr, outr = sh(["git", "-C", "/repo", "apply", "-R", patch])
-        if rcr != 0:
-            print("WARNING: could not revert patch!", outr)
-    viol = [l for l in out.splitlines() if l.startswith("VIOLATION")]
-    meta.setdefault("detect", {})[pid + ":" + tier] = {
-        "exit": rc, "violations": len(viol), "first": viol[:2], "wall_s": round(time.time() - t0, 1),
-        "detected": rc != 0 and bool(viol), "no_failing_input_only": bool(viol) and all("no-failing-input-found" in v for v in viol)}
-    save(d, meta)
-    print(sid, pid, tier, "exit", rc, "violations", len(viol), viol[:1])
+        sh(["rm", "-rf", clone, clone + ".evidence", clone + ".replays"])
 
 
 def cmd_table():
